@@ -4,7 +4,7 @@ import vf
 
 LEVEL = "model_checking"
 LEVEL_TEXT = ("Channels.tla models the goroutines of the core that talk over unbuffered channels (manager loop, path loop, two-hop "
-              "client operations, reload that closes a path, shutdown) with every select's escape branches; TLC checks absence of "
+              "client operations, reload that closes a path, hot reload delivered by its own goroutine, shutdown) with every select's escape branches; TLC checks absence of "
               "deadlock and completion of every operation under weak fairness, with and without shutdown, and shows that the design "
               "deadlocks when the path-context escape is removed; a stress driver then runs the same kinds of operations "
               "concurrently on the real pathManager built with the Go race detector, and TLC validates that every recorded "
@@ -23,6 +23,8 @@ CONSTANTS
   EscapePathCtx = %s
   EscapePMCtx = TRUE
   CountPending = TRUE
+  WithHotReload = %s
+  SyncHotReload = %s
 INVARIANT TypeOK
 PROPERTY Completes
 """
@@ -31,9 +33,9 @@ PROPERTY Completes
 def run(ctx):
     d = ctx.specdir()
 
-    def cfg(name, reqs, reload, shutdown, esc):
+    def cfg(name, reqs, reload, shutdown, esc, hot="FALSE", sync="FALSE"):
         with open(os.path.join(d, name), "w") as fh:
-            fh.write(CFG % (reqs, reload, shutdown, esc))
+            fh.write(CFG % (reqs, reload, shutdown, esc, hot, sync))
         return name
     reqs = '"r1", "r2", "r3"'
     for (rl, sdn) in (("TRUE", "TRUE"), ("TRUE", "FALSE"), ("FALSE", "TRUE")):
@@ -43,6 +45,15 @@ def run(ctx):
     if r.violated != "deadlock":
         raise vf.Infra("the model without the path-context escape should deadlock (got %r)" % r.violated)
     ctx.set("design_deadlocks_without_path_ctx_escape", True)
+    # hot reload (only hot-reloadable fields change): delivered by a goroutine of its own, as the code does ...
+    for sdn in ("TRUE", "FALSE"):
+        vf.mc(ctx, "ChannelsMC", cfg("Ch_hot_%s.cfg" % sdn, reqs, "FALSE", sdn, "TRUE", hot="TRUE"), workers=4, timeout=900)
+    # ... and the design deadlocks if the manager loop makes that send itself (self-test of the model)
+    r = vf.tlc(ctx, "ChannelsMC", cfg("Ch_hot_sync.cfg", reqs, "FALSE", "FALSE", "TRUE", hot="TRUE", sync="TRUE"), workers=4,
+               timeout=900, allow_violation=True)
+    if r.violated != "deadlock":
+        raise vf.Infra("the model with a synchronous hot reload should deadlock (got %r)" % r.violated)
+    ctx.set("design_deadlocks_with_synchronous_hot_reload", True)
 
     # directed replays of the orders the model flags as delicate (path parked before setPathReady
     # while the manager closes it / shuts down), then the free-running stress, both under -race
@@ -73,7 +84,7 @@ def run(ctx):
     slim = [{"run": o["run"], "ops": o["ops"], "shutdown": o["shutdown"]} for o in obs]
     vf.write_ndjson(os.path.join(d, "C40_trace.ndjson"), slim)
     with open(os.path.join(d, "Ch_tv.cfg"), "w") as fh:
-        fh.write((CFG % (reqs, "TRUE", "TRUE", "TRUE")).replace("SPECIFICATION Spec", "SPECIFICATION TraceSpec")
+        fh.write((CFG % (reqs, "TRUE", "TRUE", "TRUE", "FALSE", "FALSE")).replace("SPECIFICATION Spec", "SPECIFICATION TraceSpec")
                  .replace("PROPERTY Completes", "INVARIANT Verdicts\nPOSTCONDITION Accepted\nCHECK_DEADLOCK FALSE"))
     tv = vf.tlc(ctx, "TraceChannels", "Ch_tv.cfg", workers=1, timeout=900, java_opts=["-Xmx8g"])
     for bad in tv.tagged("BAD"):
